@@ -19,7 +19,8 @@ CLAIMED['C13'] = {
     'category': 'proof',
     'text': 'Two-program equivalence through common spec functions: the JS classification block (parsed from spending_report.js on '
             'every run by a JS-subset front end) and the Python functions are both symbolically executed and every VC is discharged, '
-            'for all amounts and tag lists; node-vs-CPython differential run and exhaustive lower-casing comparison are labelled extras.',
+            'for all amounts and tag lists; node-vs-CPython differential run and exhaustive lower-casing comparison are labelled extras.'
+            ' Added: call-site clause - every per-transaction classification in the report script uses the tags of the transaction itself (txn.tags); the filtered totals of the report script are run under node by the bounded oracle.',
     'level_note': _BASE_NOTE + ' Additionally trusted: the JS-subset front end and its translation table (A11).',
     'technique': 'contract-based deductive verification of both programs against shared spec functions (self-generated VCs, z3/cvc5) + bounded differential oracle',
 }
@@ -30,14 +31,16 @@ CLAIMED['C01'] = {
     'category': 'proof',
     'text': 'Loop invariants over ghost functions Filt/First/TagsU on the real MerchantEngine.match (any number and order of rules, per-rule outcome '
             'uninterpreted) give the first-match postcondition; least-index, suffix-irrelevance and non-influence lemmas by induction; all VCs discharged. '
-            'normalize_merchant / apply_transforms / legacy CSV loop are covered by the labelled bounded oracle on real rule files.',
+            'normalize_merchant / apply_transforms / legacy CSV loop are covered by the labelled bounded oracle on real rule files.'
+            ' Added after independent bug hunting: apply_transforms under contract (one transform from any state is stored where expressions read the field), the legacy tuple loop of normalize_merchant under contract.',
     'level_note': _MATCH_NOTE,
     'technique': 'contract-based deductive verification (loop invariants + ghost functions, z3/cvc5) + bounded small-scope oracle for the parts not yet under contract',
 }
 CLAIMED['C02'] = {
     'category': 'proof',
     'text': 'all_tags == TagsU(k) invariant (set iteration order havocked) and neutrality postconditions on match() in both modes; candidate-list '
-            'comprehensions and max() in most_specific mode under Sel/ArgMax ghost contracts; all VCs discharged; bounded oracle incl. legacy CSV is a labelled extra.',
+            'comprehensions and max() in most_specific mode under Sel/ArgMax ghost contracts; all VCs discharged; bounded oracle incl. legacy CSV is a labelled extra.'
+            ' Added: MerchantEngine._resolve_tags never yields the empty tag (loop invariants).',
     'level_note': _MATCH_NOTE,
     'technique': 'contract-based deductive verification (loop invariants + ghost functions, z3/cvc5) + bounded small-scope oracle',
 }
@@ -76,7 +79,8 @@ CLAIMED['C03'] = {
     'category': 'proof',
     'text': 'validate_ast proved by structural induction over the tree (returns only for whitelisted trees, raises only UnsafeNodeError); dispatch closure, '
             'calls and assigns clauses for every method of the four evaluator/context classes and the entry points decided syntactically over the real AST '
-            '(closed callee table, no reflective constructs, no write outside the evaluator scope and the two caches); escape corpus under an audit hook is a labelled extra.',
+            '(closed callee table, no reflective constructs, no write outside the evaluator scope and the two caches); escape corpus under an audit hook is a labelled extra.'
+            ' Added: TransactionEvaluator.evaluate never returns a generator object; literals must be data (Constant values); lazy evaluation confined to consuming builtins.',
     'level_note': _BASE_NOTE + ' The closed callee table (SAFE_NAMES / SAFE_ATTRS in props/C03.py) is audited by hand and trusted; ast.iter_child_nodes yields all children (A7).',
     'technique': 'contract-based deductive verification (structural induction on validate_ast via symbolic execution + z3; calls/assigns/dispatch clauses by a syntactic checker) + bounded escape-corpus oracle under sys.addaudithook',
 }
@@ -95,7 +99,8 @@ CLAIMED['C18'] = {
     'category': 'proof',
     'text': 'parse_format_string proved modulo an opaque tokenizer: loop invariants tie field positions, captures, date format and sign mode to positional ghost folds over '
             'the comma-separated parts (any number of columns), postconditions from the statement, validation exits raise only ValueError, position-reading lemma by induction; '
-            'the tokenizer regex and the `tally inspect` round trip are covered by the labelled bounded oracle (exhaustive small arrangements).',
+            'the tokenizer regex and the `tally inspect` round trip are covered by the labelled bounded oracle (exhaustive small arrangements).'
+            ' Added: _template_fields under contract (references read by the grammar of str.format).',
     'level_note': _BASE_NOTE + ' The tokenizer regular expression is uninterpreted (A6).',
     'technique': 'contract-based deductive verification (loop invariants over positional ghost folds, z3/cvc5) + bounded exhaustive-arrangement oracle incl. inspect round trip',
 }
@@ -106,7 +111,8 @@ CLAIMED['C17'] = {
             'for a missing match, neither category nor tags, or an invalid let/field/match expression); parse_sections (views files) proved by a loop invariant over the lines '
             'with uninterpreted line classifiers: one view per [header] in file order with its own name and line number, recorded only with a non-empty filter, property lines classified on their '
             'stripped text, every rejection a SectionParseError naming the offending line; MerchantEngine.parse (rules files) by a loop invariant as well: _add_rule is called exactly once per [header], in file order, with the header line number, the last open rule is closed at end of file, every rejection is a MerchantParseError naming the line being read or the header of the rejected rule (the content collected for a rule is abstract there: _add_rule contract + oracle). '
-            'Whole-file layout / corruption / reporting sentences are exercised by the labelled bounded oracle. One recorded known finding (unloadable file read as empty).',
+            'Whole-file layout / corruption / reporting sentences are exercised by the labelled bounded oracle. One recorded known finding (unloadable file read as empty).'
+            ' Added: MerchantEngine.parse passes over a line in silence only if it is blank or a comment; view names pairwise distinct.',
     'level_note': _BASE_NOTE + ' The per-line regex classifiers are opaque (A6); in the line loop of MerchantEngine.parse() the rule being collected (a dict with a growing key set) is an opaque object: which properties reach _add_rule is covered by syntactic clauses and the bounded oracle.',
     'technique': 'contract-based deductive verification (_add_rule and the line loops of parse_sections and parse by symbolic execution with loop invariants over ghost folds + z3; syntactic information-flow clauses) + bounded metamorphic/corruption oracle',
 }
@@ -116,7 +122,8 @@ CLAIMED['C10'] = {
     'text': 'evaluate_section_filter proved equal to the truth of the filter over the merchant\'s own payments and globals+locals (False when not evaluable, raises nothing); '
             'call-site clauses on the real nested loops of classify_merchants (filter asked once per merchant and view with that merchant\'s transactions and globals; '
             'listed in exactly that view iff true; no early exit); compute_section_totals; frames syntactically. The documented primitives and whole-run membership '
-            'are checked by the labelled bounded oracle.',
+            'are checked by the labelled bounded oracle.'
+            ' Added: evaluate_variables under contract (each variable sees the ones before it, is stored under its lower-cased name, an unevaluable one is left undefined); view names pairwise distinct (C17 harness).',
     'level_note': _BASE_NOTE + ' expr_parser.evaluate is an uninterpreted deterministic function raising at most ExpressionError (C08); primitives months/total/cv/by() are bounded-only.',
     'technique': 'contract-based deductive verification (symbolic execution with call-site clauses, z3; syntactic frames) + bounded oracle against an independent specification of the primitives',
 }
@@ -168,7 +175,8 @@ CLAIMED['C19'] = {
     'text': 'Deductively discharged: the structure of the rule text suggest_merchants_rule emits (header, match line built from suggest_match_expr, category/subcategory/tags lines) '
             'and the escaping of one word into a string literal, for all names/patterns/tags. The sentence that the suggested rule matches its description depends on regular-expression '
             'and string-literal-tokenizer semantics that no contract within reach expresses; it is decided only by the labelled bounded stand-in (token-set enumeration on the real '
-            'discover/loader/matcher and the discover-append-discover loop), hence level other, not proof.',
+            'discover/loader/matcher and the discover-append-discover loop), hence level other, not proof.'
+            ' Added: _matched_description (the pattern is suggested from the text the rules see) and the clause that every suggest_pattern call takes it.',
     'level_note': _BASE_NOTE + ' Regular expressions and the Python tokenizer are not modelled (A6): bounded-only for the matching direction.',
     'technique': 'contract-based deductive verification for the emitted-text structure (symbolic execution, z3); bounded stand-in (labelled) for the matching direction',
 }
@@ -188,7 +196,8 @@ CLAIMED['C12'] = {
     'text': 'make_merchant_id proved against a representation invariant of the state shared by all calls of one report (every recorded id is in used_ids, different names have different ids): one call from any such state returns the recorded id of a known name unchanged, or an unused id that is then recorded, and preserves the invariant - so ids are injective and stable for any number of merchants (while loop cut at its invariant, no bound); definite-assignment clause '
             '(every name read in a renderer is bound), figure data-flow clauses (each renderer shows the analysed stats fields) and embedding clauses (escaping replaces present, data substituted last, '
             'transaction ids indexed) decided syntactically over the real AST. The replace_all string obligation is beyond both solvers; it, the html.parser+json round trip and the category sums are '
-            'exercised by the labelled bounded oracle. make_section_id (view ids) is proved injective the same way; the JSON summary copies the analysed figures (the former recorded finding is repaired).',
+            'exercised by the labelled bounded oracle. make_section_id (view ids) is proved injective the same way; the JSON summary copies the analysed figures (the former recorded finding is repaired).'
+            ' Added: make_section_id injective; views keyed by allocated ids.',
     'level_note': _BASE_NOTE + ' HTML and JSON parsers outside the verified text (A10); definite assignment is flow-insensitive.',
     'technique': 'contract-based deductive verification (symbolic execution of make_merchant_id + z3; syntactic definite-assignment / data-flow / embedding clauses) + bounded decode round-trip oracle',
 }
@@ -204,7 +213,8 @@ CLAIMED['C04'] = {
             '_eval_comprehension_loop leaves the scope as it found it for passing and failing items alike (loop invariant, recursive call by contract) and binds the loop variable while conditions and inner '
             'loops run, month/year/day/weekday are those of the date. Regex / fuzzy / extract functions, which rows a comprehension selects, generators (yield) and any/all/sum/len/next are decided only by the '
             'labelled bounded oracle (CPython eval() differential over an exhaustive small grammar, reference tables, metamorphic laws, scope suite). Three defects found and fixed (coerced operand carried '
-            'along a chain; strip_suffix with an empty suffix; generator loop variables outliving any()/all()/next()).',
+            'along a chain; strip_suffix with an empty suffix; generator loop variables outliving any()/all()/next()).'
+            ' Added: membership in collections under the language equality (_in_collection), date difference in days, _eval_Attribute resolving its base scope-first, MerchantEngine._evaluate_variables (each variable sees the ones before it), scope maps that may hold None.',
     'level_note': _BASE_NOTE + ' Python operators, isinstance, str.lower/upper/strip/split and date.fromisoformat on values of unknown dynamic type are uninterpreted functions of the operands; '
                   'TypeError from an operator is outside these contracts (converted by the dispatcher, C08); regular expressions and difflib are outside the verified text (A6).',
     'technique': 'contract-based deductive verification (per-method contracts by symbolic execution of the real evaluator methods, ghost first-stop folds, z3/cvc5) + bounded oracle (CPython differential, reference tables, laws)',
